@@ -43,6 +43,10 @@ def check(tier):
         chk.violation("%s.%s: %s is %r, the metamodel requires %r" % (cls, wire, fact, got, want), {"kind": "python", "code": code, "site": "%s.%s %s" % (cls, wire, fact)})
     for n in notes[:10]:
         chk.inconc("annotation not mappable: %s" % n)
+    # enumerations: exactly the metamodel's values, with multiplicity (shared with C13)
+    from props import c13
+
+    c13.value_layer(chk)
     ls = lemmas(tier)
     results, stats = xh.run(ls, PREAMBLE, timeout=240 if tier == "thorough" else 60, label="c04")
     chk.ev.add_counts(xh.summarize(results))
